@@ -36,7 +36,7 @@ RULE = ("(extends) dictionaries of 1-8 entries with random 'extends' pointers (c
         "offset range. (random) JsonRandom specs with real seeded PRNGs: const, [a,b] / uniform (a <= x <= b), expon (x >= 0, "
         "mean within 7 sigma over 400 draws), normal (mean / std within 7 sigma), malformed specs refused. (classes) every public class of "
         "pams' namespaces resolves to itself, generated user classes resolve once registered, unknown or doubly defined names "
-        "are refused. (userclasses) a configuration naming user-defined Market / IndexMarket / Agent / HighFrequencyAgent / EventABC subclasses (directly or through an 'extends' template) registered with runner.class_register: every created entity is an instance of exactly the named class, and a user class that was not registered is refused. (legacy) maxHifreqOrders / hifreqSubmitRate set the same Session attributes as their replacements; both "
+        "are refused. (agentparams) timeWindowSize / meanReversionTime of FCN agents and orderTimeLength of the market maker given as [a, b] or uniform[a, b] with small widths: the integer that comes out lies in a .. b-1. (userclasses) a configuration naming user-defined Market / IndexMarket / Agent / HighFrequencyAgent / EventABC subclasses (directly or through an 'extends' template) registered with runner.class_register: every created entity is an instance of exactly the named class, and a user class that was not registered is refused. (legacy) maxHifreqOrders / hifreqSubmitRate set the same Session attributes as their replacements; both "
         "spellings together are refused.")
 ASSUMPTIONS = ["termination is judged with a 5 s (json_extends) / 10 s (runner setup) watchdog per call; the calls take microseconds / milliseconds",
                "uniform draws may hit the closed upper end by one float rounding (a <= x <= b is demanded, not x < b)",
@@ -471,6 +471,46 @@ def userclass_check(case):
     return CaseInfo(nontrivial=True, classes=["resolved"] + [x for x in base if case["user"][x]] + (["via_extends"] if case["via_extends"] else []), sample=case)
 
 
+# -- (d3) randomised agent parameters through the shipped agents' setup ------------------------------------------------------
+
+
+@st.composite
+def agentparam_cases(draw, tier):
+    lo = draw(st.integers(1, 50))
+    w = draw(st.sampled_from([1, 1, 2, 10]))
+    form = draw(st.sampled_from(["list", "uniform"]))
+    rng = [lo, lo + w] if form == "list" else {"uniform": [lo, lo + w]}
+    return {"lo": lo, "hi": lo + w, "window": rng, "reversion": rng if draw(st.booleans()) else None, "n": draw(st.integers(5, 40)), "seed": draw(st.integers(0, 10**6))}
+
+
+def agentparam_check(case):
+    """integer-valued agent parameters given as [a, b] / {"uniform": [a, b]}: the value is drawn from a <= x < b, so its integer
+    part lies in a .. b-1 (FCN agents' timeWindowSize and meanReversionTime; maker's orderTimeLength)"""
+    from pams.agents import FCNAgent, MarketMakerAgent
+    from pams.market import Market
+    sim = Simulator(prng=random.Random(case["seed"]))
+    m = Market(market_id=0, prng=random.Random(0), simulator=sim, name="M")
+    m.setup({"tickSize": 1.0, "marketPrice": 100.0})
+    sim._add_market(m)
+    settings = {"cashAmount": 1000, "assetVolume": 10, "fundamentalWeight": 1.0, "chartWeight": 0.0, "noiseWeight": 1.0, "noiseScale": 0.001,
+                "timeWindowSize": case["window"], "orderMargin": 0.01}
+    if case["reversion"] is not None:
+        settings["meanReversionTime"] = case["reversion"]
+    seen = set()
+    for i in range(case["n"]):
+        a = FCNAgent(agent_id=i, prng=random.Random(case["seed"] * 1000 + i), simulator=sim, name=f"a{i}")
+        a.setup(settings=settings, accessible_markets_ids=[0])
+        vals = [("timeWindowSize", a.time_window_size)] + ([("meanReversionTime", a.mean_reversion_time)] if case["reversion"] is not None else [])
+        mm = MarketMakerAgent(agent_id=1000 + i, prng=random.Random(case["seed"] * 1000 + i), simulator=sim, name=f"mm{i}")
+        mm.setup(settings={"cashAmount": 1000, "assetVolume": 10, "targetMarket": "M", "netInterestSpread": 0.02, "orderTimeLength": case["window"]}, accessible_markets_ids=[0])
+        vals.append(("orderTimeLength", mm.order_time_length))
+        for nm_, v in vals:
+            seen.add(v)
+            if not (isinstance(v, int) and case["lo"] <= v < case["hi"]):
+                raise Violation("C18.random_support", f"{nm_} configured as {case['window']} came out as {v!r}: outside {case['lo']} <= x < {case['hi']}")
+    return CaseInfo(nontrivial=True, classes=["width_%d" % (case["hi"] - case["lo"])], steps=case["n"], sample=case)
+
+
 # -- (e) legacy keys -----------------------------------------------------------------------------------------------------------
 
 legacy_cases = st.fixed_dictionaries({
@@ -534,6 +574,7 @@ PARTS = {
     "classes": {"check": class_check, "strategy": class_cases, "budget": {"quick": 320, "thorough": 6000}},
     "userclasses": {"check": userclass_check, "strategy": userclass_cases, "budget": {"quick": 1000, "thorough": 20000},
                     "watchdog": (10, "C18.expansion_terminates")},
+    "agentparams": {"check": agentparam_check, "strategy": agentparam_cases, "budget": {"quick": 400, "thorough": 6000}},
     "legacy": {"check": legacy_check, "strategy": lambda tier: legacy_cases, "budget": {"quick": 2000, "thorough": 30000}},
 }
 
